@@ -3,8 +3,8 @@
  * memcpy with a symbolic length is imprecise and slow in CBMC 6.11 (UNIT_GUIDE pitfall 2).
  * A macro redirect rather than a definition of `memcpy` itself, so that compiler-generated
  * struct copies in the native replay keep using the real memcpy.
- * The bodies live in contracts/c12a_shape.h (bookkeeping: bounds-checked, logged, no bytes
- * moved) or contracts/c12a_content.h (content units: bounds-checked bounded byte loop). */
+ * The bodies live in contracts/c12a_shape.h (bookkeeping: bounds-checked against the chain windows, logged,
+ * no bytes moved). */
 #ifndef VF_STUB_C12A_MEM_H_
 #define VF_STUB_C12A_MEM_H_
 #include <string.h>
